@@ -60,12 +60,25 @@ TraceSigEv ==
      IN Rec(req, doc, IF HasPrefix(e.err, "parse:") \/ HasPrefix(e.err, "decode:") THEN {"harness_" \o SubSeq(e.err, 1, 6)} ELSE {})
   /\ UNCHANGED <<cid, ncases, x>>
 
+(* Sig!KeyOfSignature across builds of one process: a signature is made with the key that is in the key file when the *)
+(* package is built - a rotated key signs the next package, a removed key file makes signing fail                       *)
+InSeq(elem, sq) == \E i \in 1..Len(sq) : sq[i] = elem
+TraceRotation ==
+  /\ IsEv("rotation")
+  /\ LET e == Trace[l] IN
+     Rec(Cl(e.err1 = "" /\ e.err2 = "", "C10.signed_package_built")
+         \cup Cl(e.err1 # "" \/ InSeq(e.sig1, e.first_key), "C10.signed_with_the_key_in_the_key_file")
+         \cup Cl(e.err2 # "" \/ InSeq(e.sig2, e.second_key), "C10.signed_with_the_key_in_the_key_file")
+         \cup Cl(e.third_fails, "C10.failed_signing_not_reported_as_built")
+         \cup Cl(~e.third_fails \/ e.third_is_signing_failure, "C10.signing_failure_identifiable"), {}, {})
+  /\ UNCHANGED <<cid, ncases, x>>
+
 TraceEof ==
   /\ IsEv("eof")
   /\ PrintT(<<"VIOLSET", ToJson(viol)>>) /\ PrintT(<<"DRIFTSET", ToJson(drift)>>) /\ PrintT(<<"MERRSET", ToJson(merr)>>)
   /\ PrintT(<<"NCASES", ncases>>) /\ TLCSet(1, l)
   /\ UNCHANGED <<cid, viol, drift, merr, ncases, x>>
-TraceNext == TraceCase \/ TraceEnd \/ TraceSigEv \/ TraceEof
+TraceNext == TraceCase \/ TraceEnd \/ TraceSigEv \/ TraceRotation \/ TraceEof
 TraceSpec == TraceInit /\ [][TraceNext]_<<vars, x>>
 HighWater == TLCSet(2, l)
 Accepted == TLCGet(1) = Len(Trace)
